@@ -420,6 +420,17 @@ class Interp:
             e = seams.build_faulty_elaborator(h, "mid", None, cls)
         h.elab.set_elaborator(e)
 
+    def op_readd(self, mid, name, how):
+        """A member the (written, not yet elaborated) module holds is assigned / added to its own name again."""
+        m = self.mods[mid].module
+        obj = m.get(name)
+        if obj is None:
+            return
+        if how == "set":
+            setattr(m, name, obj)
+        else:
+            m.add(obj)
+
     def op_reset_elab(self):
         self.h.elab.reset_elaborator()
 
